@@ -13,7 +13,7 @@
 (* every reachable state, i.e. after every finite history over the         *)
 (* constants of the config.                                                *)
 (***************************************************************************)
-EXTENDS GraphOps, Json
+EXTENDS Ghost, Json
 
 CONSTANTS MaxN,        \* vertices 0..MaxN-1 at most (resize never beyond)
           Ops,         \* names of the calls enabled in this config
@@ -38,125 +38,6 @@ WeightSet2 == {-1, 2}
 WeightSet3 == {-1, 0, 2}
 WeightSet4 == {-1, 0, 2, 3}
 BadAll == {0, 1, MAXU}
-
------------------------------------------------------------------------------
-(* The ghost: an abstract graph                                             *)
-(*   att[i][j]  (canonical key) attribute of the edge - label, multiplicity *)
-(*              or weight - or NoneL when {i,j} / (i,j) is not an edge      *)
-(*   cp[i][j]   number of parallel copies inserted with force (C16)         *)
-(*   same[i][j] every forced copy carried the attribute the pair has        *)
-
-TrueMat(n) == [i \in VS(n) |-> [j \in VS(n) |-> TRUE]]
-GEmpty(n) == [n |-> n, att |-> NoneMat(n), cp |-> ZeroMat(n), same |-> TrueMat(n)]
-
-Canon(n) == {p \in VS(n) \X VS(n) : Directed \/ p[1] <= p[2]}     \* canonical keys
-GAtt(h, i, j)  == h.att[K1(i, j)][K2(i, j)]
-GHas(h, i, j)  == GAtt(h, i, j) # NoneL
-GPut(h, i, j, a) == [h EXCEPT !.att[K1(i, j)][K2(i, j)] = a]
-GDel(h, i, j)  == GPut(h, i, j, NoneL)
-GWhere(h, P(_, _)) ==          \* delete every edge whose canonical key satisfies P
-    [h EXCEPT !.att = [i \in VS(h.n) |-> [j \in VS(h.n) |->
-                          IF P(i, j) THEN NoneL ELSE h.att[i][j]]]]
-
-\* "adding an edge that is already present changes nothing"
-GAdd(h, i, j, a) == IF GHas(h, i, j) THEN h ELSE GPut(h, i, j, a)
-\* multigraph: create or increment (k > 0); a FORCED insertion of a present pair is a
-\* duplicate, not an increment (DESIGN.md, C16)
-GAddM(h, i, j, k, f) ==
-    IF k = 0 THEN h
-    ELSE IF ~GHas(h, i, j) THEN GPut(h, i, j, k)
-    ELSE IF f THEN h ELSE GPut(h, i, j, GAtt(h, i, j) + k)
-GRemM(h, i, j, k) ==
-    IF ~GHas(h, i, j) THEN h
-    ELSE IF GAtt(h, i, j) > k THEN GPut(h, i, j, GAtt(h, i, j) - k) ELSE GDel(h, i, j)
-
-GResize(h, k) ==
-    [h EXCEPT !.n = k,
-              !.att  = [i \in VS(k) |-> [j \in VS(k) |-> IF i < h.n /\ j < h.n THEN h.att[i][j] ELSE NoneL]],
-              !.cp   = [i \in VS(k) |-> [j \in VS(k) |-> IF i < h.n /\ j < h.n THEN h.cp[i][j] ELSE 0]],
-              !.same = [i \in VS(k) |-> [j \in VS(k) |-> IF i < h.n /\ j < h.n THEN h.same[i][j] ELSE TRUE]]]
-
-\* meaning of a call on the abstract graph (attributes only; copies below)
-GAttStep(h, c) ==
-    LET ok2 == c.i \in VS(h.n) /\ c.j \in VS(h.n) IN
-    CASE c.op = "resize" -> IF c.k >= h.n THEN GResize(h, c.k) ELSE h
-      [] c.op = "clearEdges" -> GWhere(h, LAMBDA i, j : TRUE)
-      [] c.op = "removeSelfLoops" -> GWhere(h, LAMBDA i, j : i = j)
-      [] c.op = "removeVertexFromEdgeList" ->
-            IF c.v \in VS(h.n) THEN GWhere(h, LAMBDA i, j : i = c.v \/ j = c.v) ELSE h
-      [] c.op = "removeDuplicateEdges" -> h
-      [] c.op = "addEdge" /\ Kind \in {"nolabel", "labeled"} ->
-            IF ok2 THEN GAdd(h, c.i, c.j, c.l) ELSE h
-      [] c.op = "addEdgeD" -> IF ok2 THEN GAdd(h, c.i, c.j, DefL) ELSE h
-      [] c.op = "addReciprocalEdge" /\ Kind \in {"nolabel", "labeled"} ->
-            IF ok2 THEN GAdd(GAdd(h, c.i, c.j, c.l), c.j, c.i, c.l) ELSE h
-      [] c.op = "removeEdge" /\ Kind # "multi" -> IF ok2 THEN GDel(h, c.i, c.j) ELSE h
-      [] c.op = "setEdgeLabel" ->
-            IF ok2 /\ GHas(h, c.i, c.j) /\ Kind # "nolabel" THEN GPut(h, c.i, c.j, c.l) ELSE h
-      [] c.op = "addEdge" /\ Kind = "multi" -> IF ok2 THEN GAddM(h, c.i, c.j, 1, c.f) ELSE h
-      [] c.op = "addReciprocalEdge" /\ Kind = "multi" ->
-            IF ok2 THEN GAddM(GAddM(h, c.i, c.j, 1, c.f), c.j, c.i, 1, c.f) ELSE h
-      [] c.op = "addMultiedge" -> IF ok2 THEN GAddM(h, c.i, c.j, c.k, c.f) ELSE h
-      [] c.op = "addReciprocalMultiedge" ->
-            IF ok2 THEN GAddM(GAddM(h, c.i, c.j, c.k, c.f), c.j, c.i, c.k, c.f) ELSE h
-      [] c.op = "removeEdge" /\ Kind = "multi" -> IF ok2 THEN GRemM(h, c.i, c.j, 1) ELSE h
-      [] c.op = "removeMultiedge" -> IF ok2 THEN GRemM(h, c.i, c.j, c.k) ELSE h
-      [] c.op = "setEdgeMultiplicity" ->
-            IF ok2 THEN (IF c.k = 0 THEN GDel(h, c.i, c.j) ELSE GPut(h, c.i, c.j, c.k)) ELSE h
-      [] c.op = "addEdge" /\ Kind = "weighted" -> IF ok2 THEN GAdd(h, c.i, c.j, c.w) ELSE h
-      [] c.op = "setEdgeWeight" -> IF ok2 THEN GPut(h, c.i, c.j, c.w) ELSE h
-      [] c.op = "addReciprocalEdge" /\ Kind = "weighted" ->   \* the named deviation, mirrored
-            IF ok2 THEN LET w == IF c.f THEN 1 ELSE 0 IN GAdd(GAdd(h, c.i, c.j, w), c.j, c.i, w)
-            ELSE h
-      [] OTHER -> h                                             \* observers
-
-\* one insertion of the pair (i,j) carrying attribute a, with force flag f, seen on
-\* the copy counters of the ghost BEFORE the attribute step (h) - returns new cp/same
-InsertCopy(h, i, j, a, f) ==
-    LET a1 == K1(i, j)
-        a2 == K2(i, j) IN
-    IF h.cp[a1][a2] = 0 THEN [h EXCEPT !.cp[a1][a2] = 1]
-    ELSE IF f THEN [h EXCEPT !.cp[a1][a2] = @ + 1,
-                            !.same[a1][a2] = @ /\ (a = h.att[a1][a2])]
-    ELSE h
-
-IsAdd(c) == c.op \in {"addEdge", "addEdgeD", "addReciprocalEdge", "addMultiedge",
-                      "addReciprocalMultiedge"}
-AddAttr(c) == CASE c.op = "addEdgeD" -> DefL
-                [] c.op \in {"addMultiedge", "addReciprocalMultiedge"} -> c.k
-                [] Kind = "multi" -> 1
-                [] Kind = "weighted" /\ c.op = "addReciprocalEdge" -> (IF c.f THEN 1 ELSE 0)
-                [] Kind = "weighted" -> c.w
-                [] OTHER -> c.l
-AddForce(c) == IF Kind = "weighted" /\ c.op = "addReciprocalEdge" THEN FALSE ELSE c.f
-
-GStep(h, c) ==
-    LET h1 == GAttStep(h, c)                        \* attributes after the call
-        ok2 == c.i \in VS(h.n) /\ c.j \in VS(h.n)
-        hc == \* copy counters after the call, computed on the OLD attributes
-              IF IsAdd(c) /\ ok2 /\ ~(Kind = "multi" /\ AddAttr(c) = 0)
-              THEN LET x == InsertCopy(h, c.i, c.j, AddAttr(c), AddForce(c)) IN
-                   IF c.op \in {"addReciprocalEdge", "addReciprocalMultiedge"}
-                   THEN \* second insertion sees the attributes after the first
-                        InsertCopy([x EXCEPT !.att = GAttStep(h, [c EXCEPT !.op =
-                                       IF c.op = "addReciprocalEdge" THEN "addEdge" ELSE "addMultiedge"]).att],
-                                   c.j, c.i, AddAttr(c), AddForce(c))
-                   ELSE x
-              ELSE h
-        n1 == h1.n
-    IN  [n    |-> n1,
-         att  |-> h1.att,
-         cp   |-> [i \in VS(n1) |-> [j \in VS(n1) |->
-                     IF h1.att[i][j] = NoneL THEN 0
-                     ELSE IF c.op = "removeDuplicateEdges" THEN 1
-                     ELSE IF i < h.n /\ j < h.n /\ hc.cp[i][j] > 0 THEN hc.cp[i][j] ELSE 1]],
-         \* a pair whose copies carried different attributes: for labels the mismatch
-         \* disappears with the edge; the running totals of the multigraph and weighted
-         \* classes stay off for good, so there the flag is sticky
-         same |-> [i \in VS(n1) |-> [j \in VS(n1) |->
-                     IF ~(i < h.n /\ j < h.n) THEN TRUE
-                     ELSE IF h1.att[i][j] = NoneL /\ Kind \in {"nolabel", "labeled"} THEN TRUE
-                     ELSE hc.same[i][j]]]]
 
 -----------------------------------------------------------------------------
 (* Calls enabled in a state                                                 *)
